@@ -118,6 +118,11 @@ pub struct Model {
     pub bottom: bool,
     /// bottom alignment was switched on at some point: shift gaps may remain anywhere below older output
     pub bottom_ever: bool,
+    /// since then something printed text, cleared, suspended or dropped a handle: the recorded finding
+    /// F-C02a applies and screens are only compared modulo blank rows
+    pub bottom_loose: bool,
+    /// a draw under bottom alignment shrank the frame to nothing (finding F-C02d applies from then on)
+    pub bottom_emptied: bool,
     pub max_frame_h: usize,
     pub next_tag: usize,
     /// C19: (rows, cols) when frames are cut to the terminal height - a dropped bar that was not
@@ -185,7 +190,7 @@ impl Model {
         // once bottom alignment was used, blank shift rows may sit anywhere between older and newer
         // output: compare modulo blank rows then
         let squeeze = |v: Vec<String>| -> Vec<String> {
-            if self.bottom_ever {
+            if self.bottom_ever && self.bottom_loose {
                 v.into_iter().filter(|r| !r.is_empty()).collect()
             } else {
                 v
@@ -205,6 +210,8 @@ impl Model {
             blocks: &'a [Block],
             brows: &'a [Vec<String>],
             trailing_blank_ok: bool,
+            /// bottom alignment (strict form): up to this many blank shift rows directly above the frame
+            max_blank: usize,
         }
         impl M<'_> {
             fn go(&self, gi: usize, li: usize, bi: usize) -> bool {
@@ -245,8 +252,17 @@ impl Model {
                     return false;
                 }
                 // the rest must be the frame (a frame ending in blank rows compares trimmed)
-                let rest = &self.got[gi.min(self.got.len())..];
-                rest == self.frame || (self.trailing_blank_ok && trim_trailing_blank(rest.to_vec()) == self.frame)
+                let mut rest = &self.got[gi.min(self.got.len())..];
+                for _ in 0..=self.max_blank {
+                    if rest == self.frame || (self.trailing_blank_ok && trim_trailing_blank(rest.to_vec()) == self.frame) {
+                        return true;
+                    }
+                    match rest.split_first() {
+                        Some((first, tail)) if first.is_empty() && !self.frame.is_empty() => rest = tail,
+                        _ => break,
+                    }
+                }
+                false
             }
         }
         // rows of `got` were trimmed at the end; a log line / block that is blank at the very end of
@@ -256,7 +272,8 @@ impl Model {
         while padded.len() < total_parts {
             padded.push(String::new());
         }
-        let m = M { got: &padded, frame: &frame_rows, log: &log_rows, blocks: &self.blocks, brows: &block_rows, trailing_blank_ok: true };
+        let max_blank = if self.bottom_ever && !self.bottom_loose { self.max_frame_h.saturating_sub(frame_rows.len()) } else { 0 };
+        let m = M { got: &padded, frame: &frame_rows, log: &log_rows, blocks: &self.blocks, brows: &block_rows, trailing_blank_ok: true, max_blank };
         if m.go(0, 0, 0) {
             return Ok(());
         }
@@ -271,9 +288,27 @@ impl Model {
 // ------------------------------------------------------------------------------------------
 // interpreter
 
+/// Custom template key that prints nothing and counts the tick notifications of its bar: the model
+/// observes (rather than predicts) whether `inc` was let through by the bar's own position throttle.
+#[derive(Clone)]
+pub struct TickSpy(pub std::sync::Arc<std::sync::atomic::AtomicU64>);
+
+impl indicatif::style::ProgressTracker for TickSpy {
+    fn clone_box(&self) -> Box<dyn indicatif::style::ProgressTracker> {
+        Box::new(self.clone())
+    }
+    fn tick(&mut self, _: &indicatif::ProgressState, _: std::time::Instant) {
+        self.0.fetch_add(1, std::sync::atomic::Ordering::Relaxed);
+    }
+    fn reset(&mut self, _: &indicatif::ProgressState, _: std::time::Instant) {}
+    fn write(&self, _: &indicatif::ProgressState, _: &mut dyn std::fmt::Write) {}
+}
+
 pub struct Live {
     pub tag: usize,
     pub pb: ProgressBar,
+    /// tick notifications seen by the bar's style
+    pub ticks: std::sync::Arc<std::sync::atomic::AtomicU64>,
     /// true while a member of the MultiProgress
     pub member: bool,
 }
@@ -293,6 +328,8 @@ pub struct Interp {
     pub stale_reap_seen: bool,
     /// a suspend closure wrote an empty first line while no bar row was on screen (C01 finding F-C01b)
     pub empty_suspend_line_seen: bool,
+    /// a draw under bottom alignment painted an empty frame over a non-empty region (F-C02d)
+    pub bottom_empty_frame_seen: bool,
 }
 
 /// What happened in one op, for the property-specific checks.
@@ -347,26 +384,27 @@ impl Interp {
             None => ProgressDrawTarget::term_like(vt.boxed()),
         };
         let mp = MultiProgress::with_draw_target(target);
-        Interp { vt, mp: Some(mp), handles: vec![], model: Model::default(), cols, rows, cut_to_height: false, stale_since_remove: false, stale_reap_seen: false, empty_suspend_line_seen: false }
+        Interp { vt, mp: Some(mp), handles: vec![], model: Model::default(), cols, rows, cut_to_height: false, stale_since_remove: false, stale_reap_seen: false, empty_suspend_line_seen: false, bottom_empty_frame_seen: false }
     }
 
     fn entry_mut(&mut self, tag: usize) -> Option<&mut Entry> {
         self.model.entries.iter_mut().chain(self.model.detached.iter_mut()).find(|e| e.tag == tag)
     }
 
-    fn new_bar(&mut self, spec: &BarSpec) -> (ProgressBar, Entry) {
+    fn new_bar(&mut self, spec: &BarSpec) -> (ProgressBar, Entry, std::sync::Arc<std::sync::atomic::AtomicU64>) {
         let tag = self.model.next_tag;
         self.model.next_tag += 1;
         let tpl = tpl_for(tag, spec.two_lines);
+        let ticks = std::sync::Arc::new(std::sync::atomic::AtomicU64::new(0));
         let pb = ProgressBar::with_draw_target(spec.len, ProgressDrawTarget::hidden())
-            .with_style(tpl.style())
+            .with_style(tpl.style().with_key("verif_tick_spy", TickSpy(ticks.clone())))
             .with_finish(finish_of(spec.on_finish))
             .with_message(spec.msg.clone())
             .with_prefix(format!("p{tag}"));
         let mut st = BarState::new(spec.len, tpl);
         st.msg = spec.msg.clone();
         st.prefix = format!("p{tag}");
-        (pb, Entry { tag, st, on_finish: spec.on_finish % 5, drawn: None, zombie: false, intervened: false, on_screen: false })
+        (pb, Entry { tag, st, on_finish: spec.on_finish % 5, drawn: None, zombie: false, intervened: false, on_screen: false }, ticks)
     }
 
     /// a draw attempt of bar `tag`: its cached rendering is refreshed
@@ -392,6 +430,9 @@ impl Interp {
                 sel($s)
             }};
         }
+        if self.model.bottom_ever && matches!(op, MOp::Drop(_) | MOp::MpClear | MOp::MpSuspend(_) | MOp::BarSuspend(..) | MOp::MpPrintln(_) | MOp::BarPrintln(..)) {
+            self.model.bottom_loose = true;
+        }
         let has_zombie = self.model.entries.iter().any(|e| e.zombie);
         let log_before = self.model.log.clone();
         let mut text_paint = false;
@@ -407,7 +448,7 @@ impl Interp {
                     out.skipped = true;
                     return Ok(out);
                 }
-                let (pb, entry) = self.new_bar(spec);
+                let (pb, entry, ticks) = self.new_bar(spec);
                 let members: Vec<usize> = self.handles.iter().enumerate().filter(|(_, h)| h.member).map(|(i, _)| i).collect();
                 let len = self.model.entries.len();
                 // positional inserts only while no dropped-but-listed bar exists (DESIGN.md 2.2)
@@ -432,7 +473,7 @@ impl Interp {
                     MOp::InsertBefore(..) => "insert_before",
                     _ => "insert_after",
                 };
-                self.handles.push(Live { tag: entry.tag, pb, member: true });
+                self.handles.push(Live { tag: entry.tag, pb, member: true, ticks });
                 self.model.entries.insert(at, entry);
                 paint = false;
             }
@@ -463,13 +504,22 @@ impl Interp {
             }
             MOp::Inc(s, d) => {
                 let i = need_handle!(*s);
+                let before = self.handles[i].ticks.load(std::sync::atomic::Ordering::Relaxed);
                 self.handles[i].pb.inc(*d);
+                let ticked = self.handles[i].ticks.load(std::sync::atomic::Ordering::Relaxed) != before;
                 let tag = self.handles[i].tag;
                 if let Some(e) = self.entry_mut(tag) {
                     e.st.pos = e.st.pos.wrapping_add(*d);
                 }
-                paint = self.handles[i].member;
-                self.redraw(tag);
+                // more than ten position changes within a millisecond: the bar's own throttle (C05) lets
+                // the change through without a redraw attempt; the rendering shown stays the older one
+                if ticked {
+                    paint = self.handles[i].member;
+                    self.redraw(tag);
+                } else {
+                    paint = false;
+                    out.note = "inc_throttled";
+                }
             }
             MOp::SetMessage(s, m) => {
                 let i = need_handle!(*s);
@@ -667,10 +717,27 @@ impl Interp {
             }
         }
         out.reaped_now = self.model.blocks.len().saturating_sub(blocks_before);
+        if self.model.bottom_ever && out.reaped_now > 0 {
+            // a reap while bottom alignment is (or was) on: F-C02a (a) applies from here on
+            self.model.bottom_loose = true;
+        }
         out.frames = self.vt.take_frames();
+        if std::env::var_os("VERIF_TRACE").is_some() {
+            eprintln!("TRACE {op:?}: calls {:?}", self.vt.take_calls());
+            for f in &out.frames {
+                eprintln!("TRACE   screen {:?} cursor {:?}", f.rows, f.probe);
+            }
+        }
         if !out.frames.is_empty() {
             self.stale_since_remove = false;
             let h = height_of(&self.model.frame(), self.cols);
+            // the painted region still holds the bars that left the list in this very draw
+            let painted = out.pre_reap_frame.as_ref().map_or(0, |f| height_of(f, self.cols));
+            self.model.max_frame_h = self.model.max_frame_h.max(painted);
+            if self.model.bottom && h == 0 && self.model.max_frame_h > 0 {
+                self.bottom_empty_frame_seen = true;
+                self.model.bottom_emptied = true;
+            }
             self.model.max_frame_h = self.model.max_frame_h.max(h);
         }
         Ok(out)
@@ -696,7 +763,7 @@ impl Interp {
                 b.after_log = b.after_log.min(log_len);
             }
             m.match_screen(&fr.rows, &frame, self.cols).map_err(|e| {
-                let kind = if m.bottom_ever { "screen_bottom" } else { "screen" };
+                let kind = if m.bottom_ever && (m.bottom_loose || m.bottom_emptied) { "screen_bottom" } else { "screen" };
                 Fail::new(kind, format!("{ctx}, draw {} of {}: {e}", k + 1, out.frames.len()))
             })?;
         }
@@ -731,13 +798,14 @@ pub fn spec_strategy(cols: usize) -> BoxedStrategy<BarSpec> {
 /// short single-line text, occasionally long enough to wrap once
 pub fn short_text(cols: usize) -> BoxedStrategy<String> {
     let long = (cols.saturating_sub(6)..cols + 4).prop_map(|n| "m".repeat(n));
-    prop_oneof![2 => Just(String::new()), 5 => "[a-z]{1,5}", 2 => long].boxed()
+    let wide = (cols / 2..cols).prop_map(|n| "\u{9032}".repeat(n.saturating_sub(3).max(1)));
+    prop_oneof![6 => Just(String::new()), 15 => "[a-z]{1,5}", 6 => long, 1 => wide].boxed()
 }
 
 pub fn mop_strategy(cols: usize, with_wait: bool) -> BoxedStrategy<MOp> {
     let sp = move || spec_strategy(cols);
     let s = || any::<u16>();
-    let log = prop_oneof![4 => "[a-z ]{1,6}", 1 => Just(String::new()), 1 => (cols..2 * cols + 2).prop_map(|n| "l".repeat(n)), 1 => "[a-z]{1,3}\n[a-z]{1,3}"];
+    let log = prop_oneof![4 => "[a-z ]{1,6}", 1 => Just(String::new()), 1 => (cols..2 * cols + 2).prop_map(|n| "l".repeat(n)), 1 => "[a-z]{1,3}\n[a-z]{1,3}", 1 => (cols / 2 + 1..cols + 2).prop_map(move |n| if cols % 2 == 0 { "\u{6357}".repeat(n) } else { "l".repeat(n) })];
     let log2 = log.clone();
     let base = prop_oneof![
         5 => sp().prop_map(MOp::Add),
